@@ -217,7 +217,7 @@ Fixpoint nodup_keys (kv : list (pyval * pyval)) : bool :=
   end.
 
 (* every byte in 0..255, every str valid UTF-8, every length below 2^63, dict keys unique.
-   (Float patterns are not constrained here: [floats_ok] checks every float leaf of the OUTPUT.) *)
+   (Float patterns are constrained separately: [pyfloats_ok] on the input, [floats_ok] on the wire value.) *)
 Fixpoint wf_py (v : pyval) : bool :=
   match v with
   | PNone | PBool _ | PInt _ | PFloat _ => true
@@ -244,8 +244,28 @@ Fixpoint wf_schema (s : schema) : bool :=
 
 Definition wf_env (e : env) : bool := forallb (fun p => wf_schema (snd p)) e.
 
-(* every binary32 / binary64 pattern of the wire value is in range.  That d2s / z2d only produce such
-   patterns rests on SpecFloat.binary_round and is NOT proved; the harness evaluates this on every case. *)
+(* every Python float of the datum is a binary64 pattern (a property of the abstraction: the harness maps a float to
+   struct.pack('<d', x) read as an integer) -- for the data and for the defaults of schemas / named schemas *)
+Fixpoint pyfloats_ok (v : pyval) : bool :=
+  match v with
+  | PFloat b => (0 <=? b) && (b <? 2 ^ 64)
+  | PList l | PTuple l => forallb pyfloats_ok l
+  | PDict kv => forallb (fun p => pyfloats_ok (fst p) && pyfloats_ok (snd p)) kv
+  | _ => true
+  end.
+Fixpoint dflt_floats_ok (s : schema) : bool :=
+  match s with
+  | SArray s' | SMap s' | SAnnot _ s' => dflt_floats_ok s'
+  | SUnion bs => forallb dflt_floats_ok bs
+  | SRecord _ _ fs =>
+      forallb (fun fd => dflt_floats_ok (ftype fd) && match fdefault fd with Some d => pyfloats_ok d | None => true end) fs
+  | _ => true
+  end.
+Definition env_floats_ok (e : env) : bool := forallb (fun p => dflt_floats_ok (snd p)) e.
+
+(* every binary32 / binary64 pattern of the wire value is in range.  proofs/ElabFloats.v proves this of everything [elab]
+   produces from data satisfying [pyfloats_ok] (via proofs/FloatProofs.v: d2s / z2d only produce such patterns); the
+   harness still evaluates it on every case as a cross-check. *)
 Fixpoint floats_ok (a : aval) : bool :=
   match a with
   | AFloat b => (0 <=? b) && (b <? 2 ^ 32)
@@ -350,7 +370,8 @@ Definition run_c09 (wo : wopts) (ro : ropts) (e : env) (s : schema) (v : pyval) 
   match elab FUEL2 wo e s v with
   | WOk a =>
       "A:" ++ show_a a ++ ";W:" ++ tohex (wire a) ++ ";" ++ (if floats_ok a then "fok" else "FBAD")
-      ++ (if wf_py v then "" else "+pybad") ++ (if wf_schema s && wf_env e then "" else "+schemabad")
+ ++ (if wf_py v && pyfloats_ok v then "" else "+pybad")
+      ++ (if wf_schema s && wf_env e && dflt_floats_ok s && env_floats_ok e then "" else "+schemabad")
       ++ ";R:" ++ (match py_of ro e s a with Some pv => show_py pv | None => "?" end)
       ++ ";CL:" ++ (match py_of ro_named e s a with
                     | Some pv => match write FUEL2 wo e s pv with
